@@ -99,6 +99,7 @@ func fqPool(names, seqs []string, qalpha string) []fqRec {
 }
 
 func runC02(r *core.Run) {
+	firstCallClause(r, "fastq.")
 	pool := fqPool([]string{"", "a", "@", "+", "@+"}, enum.AllStrings("A@+", 2), "I@+")
 	small := fqPool([]string{"a", "@"}, enum.AllStrings("A@+", 1), "I@+")
 	r.Bound("content", fmt.Sprintf("names {'',a,@,+,@+}, sequences over {A,@,+}^<=2, qualities over {I,@,+} of equal length (%d records): every list of 0..2 records; thorough: every list of 3 records over a pool of %d", len(pool), len(small)))
@@ -353,6 +354,69 @@ func runC02(r *core.Run) {
 	})
 
 	headerLookalikes(r)
+
+	type longCut struct {
+		Field string `json:"long_field"`
+		Cut   int    `json:"bytes_kept_of_the_long_record"`
+	}
+	r.Bound("cuts-in-long-records", "a short record followed by a record whose name / sequence+qualities has 8300 bytes, the file cut at EVERY byte offset inside that record (and, for a 70 000-byte field, at the offsets around 4096 and 65536 multiples)")
+	core.Clause(r, "cuts-in-long-records", core.Opts{Rule: "a file cut short anywhere inside a LONG record (every offset, so also exactly at the reader's buffer fills inside the header, sequence and quality lines): the first record intact, then exactly one error, then end; a cut right after the complete record yields it instead; non-trivial = all"},
+		func(emit func(longCut) bool) {
+			for _, f := range []string{"name", "read"} {
+				n := 8300
+				total := 1 + n + 1 + 4 + 3 + 4 + 1
+				if f == "read" {
+					total = 1 + 4 + 1 + n + 3 + n + 1
+				}
+				for cut := 0; cut <= total; cut++ {
+					if !emit(longCut{f, cut}) {
+						return
+					}
+				}
+			}
+			for _, f := range []string{"name70k", "read70k"} {
+				for _, c := range []int{4096, 8192, 65536, 69632, 70000, 73728, 131072, 135168, 139264} {
+					for d := -3; d <= 3; d++ {
+						if !emit(longCut{f, c + d}) {
+							return
+						}
+					}
+				}
+			}
+		},
+		func(c longCut) core.Outcome {
+			n := 8300
+			if strings.HasSuffix(c.Field, "70k") {
+				n = 70000
+			}
+			long := fqRec{"long", "ACGT", "IIII"}
+			if strings.HasPrefix(c.Field, "name") {
+				long.Name = core.S(longSeq(n))
+			} else {
+				long.Seq, long.Qual = core.S(longSeq(n)), core.S(bytes.Repeat([]byte{'I'}, n))
+			}
+			first := fqRec{"first", "AC", "II"}
+			full := fastqText(long)
+			cut := min(c.Cut, len(full))
+			data := append(fastqText(first), full[:cut]...)
+			got, p := readFastqAll(data)
+			if p != "" {
+				return core.Failf("Reader panicked/hung on a long record cut after %d bytes: %s", cut, p)
+			}
+			want := wantFastq([]fqRec{first})
+			switch {
+			case cut == 0:
+				// nothing of the second record: a complete file of one record
+			case cut >= len(full)-1: // complete (with or without its final line break)
+				want = wantFastq([]fqRec{first, long})
+			default:
+				want = append(want, obsItem{Err: "error"})
+			}
+			if !sameShape(got, want) {
+				return core.Failf("a record with a %s of %d bytes cut after %d of its %d bytes: decodes to %d items %s; want the first record, then %s", c.Field, n, cut, len(full), len(got), trunc(renderObs(got), 200), map[bool]string{true: "exactly one error", false: "the end / the complete record"}[cut > 0 && cut < len(full)-1])
+			}
+			return core.Outcome{Class: c.Field, Nontrivial: true}
+		})
 
 	cpool := []fqRec{{"a", "A", "I"}, {"", "", ""}, {"@", "@", "@"}, {"r", "AC", "+I"}, {"+", "+A", "I+"}, {"x y", "ACG", "III"}}
 	maxFile := core.Pick(r, 2, 3)
